@@ -689,6 +689,35 @@ def check_type_cutoffs(run, it, fq, rc, snap, i, loc):
     """rc must be the row `centre type - 1` of a table whose [a, j] entry is r_cut[a, type_j - 1]."""
     ptype_cur = ("attr", snap, "particle_type")
     ptype0 = ("attr", ("sub", ("attr", SN, "snapshots"), C(0)), "particle_type")
+    # whatever the layout of intermediate tables: the vector compared with the distances from particle i must be
+    # [r_cut[type_i - 1, type_j - 1] for j] - evaluated on a 3 x 3 table of distinct exact symbols and five typed particles
+    if not (rc[0] == "sub" and [e for e in stores(it) if e.data["target"][1] == rc[1]]):
+        try:
+            import numpy as np
+            from ..concrete import ev as cev, symbolic_array
+            from ..vg import strip_alloc
+            R = symbolic_array((3, 3), "rc", complex_=False)
+            types = np.array([1, 2, 2, 3, 1])
+            bad = None
+            for iv in range(5):
+                env = {("sym", "r_cut"): R, ptype0: types, ptype_cur: types, ("sym", "nparticle_type"): 3, i: iv,
+                       ("attr", ("sub", ("attr", SN, "snapshots"), C(0)), "nparticle"): 5, ("attr", snap, "nparticle"): 5}
+                got = np.asarray(cev(strip_alloc(rc), env), dtype=object).ravel()
+                want = [R[types[iv] - 1, types[j] - 1] for j in range(5)]
+                if got.shape[0] != 5:
+                    raise ValueError("shape")
+                for j in range(5):
+                    if got[j] != want[j]:
+                        bad = (f"types {types.tolist()}: the distance from particle {iv} (type {types[iv]}) to particle {j} (type {types[j]}) is compared with r_cut[{str(got[j])[3:]}] "
+                               f"instead of r_cut[{types[iv] - 1}{types[j] - 1}] - wrong for every non-symmetric cutoff table")
+                        break
+                if bad:
+                    break
+            run.ob("R-IDX", fq, "typed:pair-cutoff", bad is None, "the cutoff compared with d_ij is r_cut[type_i - 1, type_j - 1] (centre type selects the row, neighbour type the column); "
+                   "decided exactly on a symbolic 3 x 3 table and five typed particles", show(rc)[:90], witness=bad, loc=loc, sound=True)
+            return
+        except Exception:  # noqa
+            pass
     ok_row = tri_lazy(lambda: (True if (rc[0] == "sub") else None), lambda: eqv(rc[2], ("bin", "-", ("sub", ptype_cur, i), C(1)), ("bin", "-", ("sub", ptype0, i), C(1))))
     run.ob("R-IDX", fq, "typed:row", ok_row, "the cutoff row is selected by the centre particle's type - 1", show(rc[2])[:70] if rc[0] == "sub" else show(rc)[:70],
            witness=None if ok_row else "types are 1-based, table rows 0-based: type K indexes past the table / type 1 uses row of type 2", loc=loc, sound=True)
